@@ -1087,8 +1087,10 @@ def _combine_scalar_dists(d1, d2, op):
     # Copy to make sure we don't lose precision when converting.
     d2 = d2.copy(base=d1.get_base())
 
-    dist = defaultdict(float)
+    ops = d1.ops
+    dist = defaultdict(lambda: ops.zero)
     for (o1, p1), (o2, p2) in product(d1.zipped(), d2.zipped()):
-        dist[op(o1, o2)] += d1.ops.mult(p1, p2)
+        key = op(o1, o2)
+        dist[key] = ops.add(dist[key], ops.mult(p1, p2))
 
     return ScalarDistribution(*zip(*dist.items()), base=d1.get_base())
